@@ -805,6 +805,7 @@ func (c *Chunker) splitSectionByParagraphs(section *Section, chunkIndex *int, do
 			prevChunk := chunks[len(chunks)-1]
 			if len(prevChunk.Text)+len(text)+2 <= c.config.MaxChunkSize {
 				prevChunk.Text = prevChunk.Text + "\n\n" + text
+				extendChunkPages(prevChunk, currentElements)
 				prevChunk.Metadata.CharCount = len(prevChunk.Text)
 				prevChunk.Metadata.WordCount = countWords(prevChunk.Text)
 				prevChunk.Metadata.EstimatedTokens = len(prevChunk.Text) / 4
@@ -833,6 +834,7 @@ func (c *Chunker) splitSectionByParagraphs(section *Section, chunkIndex *int, do
 		}
 
 		chunk := c.createChunk(text, section, *chunkIndex, docTitle, elementTypes, hasTable, hasList, hasImage, bbox)
+		setChunkPages(chunk, currentElements)
 		chunk.Metadata.Level = ChunkLevelParagraph
 		chunks = append(chunks, chunk)
 		*chunkIndex++
@@ -926,6 +928,7 @@ func (c *Chunker) splitSectionByParagraphs(section *Section, chunkIndex *int, do
 					}
 				}
 				chunk := c.createChunk(atomicStr, section, *chunkIndex, docTitle, atomicTypes, atomicHasTable, atomicHasList, atomicHasImage, bbox)
+				setChunkPages(chunk, atomicElements)
 				chunk.Metadata.Level = ChunkLevelParagraph
 				chunks = append(chunks, chunk)
 				*chunkIndex++
@@ -1044,6 +1047,7 @@ func (c *Chunker) splitBySentences(text string, section *Section, chunkIndex *in
 			chunkText := currentText.String()
 			chunk := c.createChunk(chunkText, section, *chunkIndex, docTitle,
 				[]string{elem.Type.String()}, false, false, false, &elem.BBox)
+			setChunkPages(chunk, []ContentElement{elem})
 			chunk.Metadata.Level = ChunkLevelSentence
 			chunks = append(chunks, chunk)
 			*chunkIndex++
@@ -1061,12 +1065,48 @@ func (c *Chunker) splitBySentences(text string, section *Section, chunkIndex *in
 		chunkText := currentText.String()
 		chunk := c.createChunk(chunkText, section, *chunkIndex, docTitle,
 			[]string{elem.Type.String()}, false, false, false, &elem.BBox)
+		setChunkPages(chunk, []ContentElement{elem})
 		chunk.Metadata.Level = ChunkLevelSentence
 		chunks = append(chunks, chunk)
 		*chunkIndex++
 	}
 
 	return chunks
+}
+
+// setChunkPages narrows a chunk's page range from that of its whole section to the
+// pages the elements it was built from came from.
+func setChunkPages(chunk *Chunk, elems []ContentElement) {
+	lo, hi := 0, 0
+	for _, e := range elems {
+		if e.Page <= 0 {
+			continue
+		}
+		if lo == 0 || e.Page < lo {
+			lo = e.Page
+		}
+		if e.Page > hi {
+			hi = e.Page
+		}
+	}
+	if lo > 0 {
+		chunk.Metadata.PageStart, chunk.Metadata.PageEnd = lo, hi
+	}
+}
+
+// extendChunkPages widens a chunk's page range to include further elements.
+func extendChunkPages(chunk *Chunk, elems []ContentElement) {
+	for _, e := range elems {
+		if e.Page <= 0 {
+			continue
+		}
+		if e.Page < chunk.Metadata.PageStart {
+			chunk.Metadata.PageStart = e.Page
+		}
+		if e.Page > chunk.Metadata.PageEnd {
+			chunk.Metadata.PageEnd = e.Page
+		}
+	}
 }
 
 // createChunk creates a new Chunk with the given parameters
